@@ -109,6 +109,9 @@ inline const char *pkind_name(int k) { static const char *n[] = {"V", "E", "HE",
 struct IProp {
     int kind = 0;
     std::string label;   // kind/type/flavour for logs
+    std::string name; int flavour = 0;   // 0 shared, 1 private, 2 persistent
+    virtual bool findable_in(ovm::ResourceManager &rm) const = 0;        // get_property(name) with this type/kind succeeds
+    virtual bool same_storage_as_found(ovm::ResourceManager &rm, Rng &r) = 0; // write-through test against the property found by name
     std::map<long long, std::string> shadow;   // id (or 2*id+side; 0 for mesh) -> repr
     virtual ~IProp() = default;
     virtual size_t size() const = 0;
@@ -132,6 +135,17 @@ struct PropT : IProp {
     std::string set_random(int idx, Rng &r) override { T v = Val<T>::make(r); p[H(idx)] = v; return Val<T>::repr(v); }
     std::string def() const override { return Val<T>::repr(p.def()); }
     bool attached() const override { return (bool)p; }
+    bool findable_in(ovm::ResourceManager &rm) const override { return rm.template property_exists<T, ET>(name) && rm.template get_property<T, ET>(name).has_value(); }
+    bool same_storage_as_found(ovm::ResourceManager &rm, Rng &r) override {
+        auto o = rm.template get_property<T, ET>(name);
+        if (!o || p.size() == 0 || o->size() == 0) return false;
+        T old = p[H(0)];
+        T v = Val<T>::make(r); for (int i = 0; i < 8 && Val<T>::repr(v) == Val<T>::repr((*o)[H(0)]); ++i) v = Val<T>::make(r);
+        p[H(0)] = v;
+        bool same = Val<T>::repr((*o)[H(0)]) == Val<T>::repr(v);
+        p[H(0)] = old;
+        return same;
+    }
 };
 
 } // namespace vf
